@@ -503,7 +503,15 @@ class Interp:
                     args.extend(self.iterate(self.ev(a.value, env)))
                 else:
                     args.append(self.ev(a, env))
-            kwargs = {k.arg: self.ev(k.value, env) for k in e.keywords if k.arg}
+            kwargs = {}
+            for k in e.keywords:
+                if k.arg:
+                    kwargs[k.arg] = self.ev(k.value, env)
+                else:
+                    extra = self.ev(k.value, env)
+                    if not isinstance(extra, dict) or not all(isinstance(x, str) for x in extra):
+                        raise Unsupported("** of something that is not a dict with string keys")
+                    kwargs.update(extra)
             if isinstance(fn, Function):
                 return fn(*args, **kwargs)
             if isinstance(fn, StubCall):
